@@ -356,7 +356,7 @@ class AbstractWalkModelDiGraph(ABC):
                 )
                 # x_ei <= U * z_ei
                 self.solver.add_constraint(
-                    self.edge_vars[(u, v, i)] <= self.edge_upper_bounds[(u, v)] * self.edge_used_vars[(u, v, i)],
+                    self.edge_vars[(u, v, i)] <= float(self.edge_upper_bounds[(u, v)]) * self.edge_used_vars[(u, v, i)],
                     name=f"x_le_Ue_min1_u={u}_v={v}_i={i}",
                 )
 
